@@ -43,6 +43,11 @@ type Chan struct {
 	// selsends is the subset of sends originating from select operations.
 	selsends uint16
 	close    bool
+	// recvseq counts completed unbuffered hand-offs. A receiver that armed the
+	// channel when the counter was s has been served exactly when recvseq != s,
+	// no matter whether another receiver re-armed getp or the channel was closed
+	// in the meantime.
+	recvseq uint
 }
 
 func NewChan(eltSize, cap int) *Chan {
@@ -106,6 +111,7 @@ func ChanTrySend(p *Chan, v unsafe.Pointer, eltSize int) bool {
 			c.Memcpy(p.data, v, uintptr(eltSize))
 		}
 		p.getp = chanNoSendRecv
+		p.recvseq++
 	} else {
 		if p.len == n || p.close {
 			p.mutex.Unlock()
@@ -143,6 +149,7 @@ func ChanSend(p *Chan, v unsafe.Pointer, eltSize int) bool {
 			c.Memcpy(p.data, v, uintptr(eltSize))
 		}
 		p.getp = chanNoSendRecv
+		p.recvseq++
 	} else {
 		for p.len == n {
 			p.cond.Wait(&p.mutex)
@@ -167,6 +174,7 @@ func ChanTryRecv(p *Chan, v unsafe.Pointer, eltSize int) (recvOK bool, tryOK boo
 
 func chanTryRecv(p *Chan, v unsafe.Pointer, eltSize int, acceptSelectSend bool) (recvOK bool, tryOK bool) {
 	n := p.cap
+	var seq uint
 	p.mutex.Lock()
 	if n == 0 {
 		if p.sends == 0 || p.getp == chanHasRecv || p.close {
@@ -180,6 +188,7 @@ func chanTryRecv(p *Chan, v unsafe.Pointer, eltSize int, acceptSelectSend bool) 
 		}
 		p.getp = chanHasRecv
 		p.data = v
+		seq = p.recvseq
 	} else {
 		if p.len == 0 {
 			tryOK = p.close
@@ -197,10 +206,10 @@ func chanTryRecv(p *Chan, v unsafe.Pointer, eltSize int, acceptSelectSend bool) 
 	p.cond.Broadcast()
 	if n == 0 {
 		p.mutex.Lock()
-		for p.getp == chanHasRecv && !p.close {
+		for p.recvseq == seq && !p.close {
 			p.cond.Wait(&p.mutex)
 		}
-		recvOK = !p.close
+		recvOK = p.recvseq != seq
 		tryOK = recvOK
 		p.mutex.Unlock()
 	} else {
@@ -211,6 +220,7 @@ func chanTryRecv(p *Chan, v unsafe.Pointer, eltSize int, acceptSelectSend bool) 
 
 func ChanRecv(p *Chan, v unsafe.Pointer, eltSize int) (recvOK bool) {
 	n := p.cap
+	var seq uint
 	p.mutex.Lock()
 	if n == 0 {
 		for p.getp == chanHasRecv && !p.close {
@@ -222,6 +232,7 @@ func ChanRecv(p *Chan, v unsafe.Pointer, eltSize int) (recvOK bool) {
 		}
 		p.getp = chanHasRecv
 		p.data = v
+		seq = p.recvseq
 	} else {
 		for p.len == 0 {
 			if p.close {
@@ -241,10 +252,10 @@ func ChanRecv(p *Chan, v unsafe.Pointer, eltSize int) (recvOK bool) {
 	p.cond.Broadcast()
 	if n == 0 {
 		p.mutex.Lock()
-		for p.getp == chanHasRecv && !p.close {
+		for p.recvseq == seq && !p.close {
 			p.cond.Wait(&p.mutex)
 		}
-		recvOK = !p.close
+		recvOK = p.recvseq != seq
 		p.mutex.Unlock()
 	} else {
 		recvOK = true
